@@ -240,6 +240,9 @@ func runC03(r *core.Run) {
 	}
 	// (3) neighbourhood of the spec examples in safe XHTML mode
 	nbhdSub(r, "nbhd-spec/all+attr+autoid+xhtml", core.MustCfg("all+attr+autoid+xhtml"), func(s *core.Sub, cv *core.Conv, w []byte) { c03Case(s, cv, w, "nbhd") })
+	for _, cn := range []string{"core", "all+attr+autoid+xhtml"} {
+		nestSub(r, "nesting/"+cn, core.MustCfg(cn), core.Pick(r, 3, 4), func(s *core.Sub, cv *core.Conv, w []byte) { c03Case(s, cv, w, "nesting") })
+	}
 }
 
 func replayC03(r *core.Run, v *core.Violation) {
